@@ -27,3 +27,44 @@ Theorem C11_no_flow (K : fieldType) (op : seq K -> seq K -> seq K) (x y x' y' : 
   omap (fun z => dirU z p) (binopU op x y) = omap (fun z => dirU z p) (binopU op x' y').
 Proof. exact: binopU_dir_indep. Qed.
 Print Assumptions C11_no_flow.
+
+(* ---- whole programs (TracerDirs.v): the executable tracer instance lifted to P directions -- a value is a list of P direction
+   blocks, each with its OWN base point, every kernel applied block by block -- computes in block p exactly what the one-direction
+   instance computes from block p of the inputs, constants and seeds: forward evaluation, replay of a recorded tape, tangent sweep
+   and the ADJOINTS of the reverse sweep; hence nothing flows from one direction into another. *)
+From AlgoV Require Import Tracer TracerExec TracerRefine TracerDirs.
+Theorem C11_program_eval_dir (K : fieldType) (D P p : nat) (prog : seq (instr (DS K))) ret (xs : seq (DS K)) : p < P ->
+  all (instr_okP P) prog -> sizedP P xs ->
+  map (dir p) (XP_eval_out D P prog ret xs) = X_eval_out D (map (instrD p) prog) ret (map (dir p) xs).
+Proof. move=> *; exact: XP_eval_dir. Qed.
+Theorem C11_program_replay_dir (K : fieldType) (D P p : nat) (t : tape (DS K)) outs (xs : seq (DS K)) : p < P ->
+  all (node_okP P) t -> sizedP P xs ->
+  map (dir p) (XP_replay_out D P t outs xs) = X_replay_out D (map (nodeD p) t) outs (map (dir p) xs).
+Proof. move=> *; exact: XP_replay_dir. Qed.
+Theorem C11_program_tangent_dir (K : fieldType) (D P p : nat) (t : tape (DS K)) outs (xs dxs : seq (DS K)) : p < P ->
+  all (node_okP P) t -> sizedP P xs -> sizedP P dxs ->
+  map (dir p) (XP_tangent_out D P t outs xs dxs) = X_tangent_out D (map (nodeD p) t) outs (map (dir p) xs) (map (dir p) dxs).
+Proof. move=> *; exact: XP_tangent_dir. Qed.
+Theorem C11_program_adjoint_dir (K : fieldType) (D P p : nat) (t : tape (DS K)) outs (xs ybars : seq (DS K)) : p < P ->
+  all (node_okP P) t -> sizedP P xs -> sizedP P ybars ->
+  map (dir p) (XP_grad D P t outs xs ybars) = X_grad D (map (nodeD p) t) outs (map (dir p) xs) (map (dir p) ybars).
+Proof. move=> *; exact: XP_grad_dir. Qed.
+Theorem C11_program_record_commutes (K : fieldType) (p : nat) (prog : seq (instr (DS K))) :
+  record (map (instrD p) prog) = ([seq nodeD p n | n <- (record prog).1], (record prog).2).
+Proof. exact: record_D. Qed.
+Theorem C11_program_eval_no_flow (K : fieldType) (D P p : nat) (prog : seq (instr (DS K))) ret (xs xs' : seq (DS K)) : p < P ->
+  all (instr_okP P) prog -> sizedP P xs -> sizedP P xs' -> map (dir p) xs = map (dir p) xs' ->
+  map (dir p) (XP_eval_out D P prog ret xs) = map (dir p) (XP_eval_out D P prog ret xs').
+Proof. exact: XP_eval_no_flow. Qed.
+Theorem C11_program_adjoint_no_flow (K : fieldType) (D P p : nat) (t : tape (DS K)) outs (xs xs' ybars ybars' : seq (DS K)) : p < P ->
+  all (node_okP P) t -> sizedP P xs -> sizedP P xs' -> sizedP P ybars -> sizedP P ybars' ->
+  map (dir p) xs = map (dir p) xs' -> map (dir p) ybars = map (dir p) ybars' ->
+  map (dir p) (XP_grad D P t outs xs ybars) = map (dir p) (XP_grad D P t outs xs' ybars').
+Proof. exact: XP_grad_no_flow. Qed.
+Print Assumptions C11_program_eval_dir.
+Print Assumptions C11_program_replay_dir.
+Print Assumptions C11_program_tangent_dir.
+Print Assumptions C11_program_adjoint_dir.
+Print Assumptions C11_program_record_commutes.
+Print Assumptions C11_program_eval_no_flow.
+Print Assumptions C11_program_adjoint_no_flow.
